@@ -29,18 +29,6 @@ def marker_ok(number, marker):
     return expo is None or marker != '' or expo[0] != ''
 
 
-def in_guard(number, pad_a, pad_b):
-    '''The guard of C09_normalize_float_classes for the pair of paddings: a
-    mantissa with at least one digit, and equal paddings when an exponent
-    follows (zeros between a fraction and an exponent are never removed).'''
-    _sign, ip, fp, expo = number
-    if not ip and not fp:
-        return False
-    if expo is not None:
-        return pad_a == pad_b
-    return True
-
-
 def gen_number(rng, negative=None, wild=False):
     '''A decimal number as a structured spelling; `wild` gives more of the
     shapes that used to break (empty kept fraction, all-zero exponent).'''
@@ -75,8 +63,6 @@ def gen_spellings(rng, number, count, wild=False):
         pad = 0
         if number[2] is not None:
             pad = rng.choice([0, 0, 1, 2, 3])
-            if number[3] is not None and not wild:
-                pad = 0
         marker = rng.choice([m for m in MARKERS if marker_ok(number, m)])
         out.append((spell(number, pad, marker), pad, marker))
     return out
@@ -86,7 +72,7 @@ def random_token(rng, alphabet, maxlen):
     return ''.join(rng.choice(alphabet) for _ in range(rng.randint(0, maxlen)))
 
 
-DOCTESTS = [('1.0', '1.0'), ('-1', '-1'), ('7', '7'), ('1.00', '1.0'),
+DOCTESTS = [('1.50e-3', '1.5e-3'), ('.500+2', '.5e+2'), ('1.0', '1.0'), ('-1', '-1'), ('7', '7'), ('1.00', '1.0'),
             ('1.23000', '1.23'),
             ('-1.23000', '-1.23'), ('-.23000', '-.23'), ('7', '7'),
             ('10', '10'), ('6.40875-2', '6.40875e-2'),
@@ -246,7 +232,7 @@ class DeckGen:
         mat = self.material()
         while mat[0] == 0:
             mat = self.material()
-        if self.wild and base['mat'] != 0 and rng.random() < 0.3:
+        if base['mat'] != 0 and rng.random() < 0.12:
             but['mat'], cls = 0, None       # a void copy
             self.features.add('like-but-void')
         elif base['mat'] == 0 or mode < 0.5:
